@@ -208,6 +208,36 @@ def check(case, rec=None):
         if ok:
             f, n, nb = check_list(pk, cell, other, ds1, "gethkls of a %s cell made after the %s cell" % (other, sym))
             fails += f
+    # the list as the transformer object keeps it for fitting and for the header of g-vector files: the reflections
+    # up to the two-theta limit it is given (here the angle of ds1 at 0.3 A), no further
+    if not fails and 0.15 * ds1 < 0.999:
+        from ImageD11 import transformer, columnfile
+        import io, contextlib
+        wl = 0.3
+        tthlim = float(np.degrees(2 * np.arcsin(wl * ds1 / 2)))
+
+        def troute():
+            tr = transformer.transformer()
+            tr.parameterobj.set_parameters({"cell__a": cell[0], "cell__b": cell[1], "cell__c": cell[2],
+                                            "cell_alpha": cell[3], "cell_beta": cell[4], "cell_gamma": cell[5],
+                                            "cell_lattice_[P,A,B,C,I,F,R]": sym, "wavelength": wl})
+            tr.setfiltered(columnfile.colfile_from_dict({"sc": np.array([1.0, 2.0]), "fc": np.array([1.0, 2.0]),
+                                                         "omega": np.zeros(2), "tth": np.array([1.0, 2.0]),
+                                                         "eta": np.zeros(2)}))
+            with contextlib.redirect_stdout(io.StringIO()):
+                tr.addcellpeaks(tthlim)
+            return tr
+        ok, tr = guard(troute)
+        if not ok:
+            fails.append(exc_failure("transformer.addcellpeaks", tr))
+        else:
+            dsl = float(tr.dslimit)
+            if abs(dsl - ds1) > 1e-9 * ds1:
+                fails.append(fail("limit", "transformer.addcellpeaks: dslimit %r for a two-theta limit that corresponds "
+                                  "to %r" % (dsl, ds1), call="addcellpeaks"))
+            else:
+                f, n, nb = check_list(tr.theorypeaks, cell, sym, dsl, "transformer.addcellpeaks (theorypeaks)")
+                fails += f
     tol = case["tol"]
     ok, e = guard(u.makerings, ds2, tol)
     if ok and isinstance(uo, unitcell.unitcell):
@@ -237,8 +267,15 @@ def check(case, rec=None):
         mid = 0.5 * (big + small)
         tol2 = tol * 5.0 if tol <= 2e-3 else tol * 0.2
         # same limit again with another ring tolerance, and back (an indexer whose ds_tol is edited between calls)
-        for step, (lim, tl) in enumerate(((big, tol), (small, tol), (big, tol), (big, tol2), (big, tol))):
-            ok, e = guard(u3.makerings, lim, tl)
+        # ... and a last call that leaves the tolerance to its documented default of 0.001 (as transformer,
+        # rings_mask and the pole figure code call it) after calls with other tolerances
+        for step, (lim, tl) in enumerate(((big, tol), (small, tol), (big, tol), (big, tol2), (big, tol),
+                                          (big, max(tol, tol2, 0.008)), (big, None))):
+            if tl is None:
+                ok, e = guard(u3.makerings, lim)
+                tl = 0.001
+            else:
+                ok, e = guard(u3.makerings, lim, tl)
             if not ok:
                 fails.append(exc_failure("makerings(history step %d)" % step, e))
                 break
